@@ -89,41 +89,89 @@ def accept_paths(P, f, accept="true"):
             acc = None          # value not decided by control flow: keep, flagged
         if acc is False:
             continue
-        # the value returned is itself the last comparison of an `a == "X" || a == "Y"` chain: accepted exactly when it holds
-        tail_atom = None
-        if acc is None:
-            ret_o = None
-            t_ = f.blocks[b]["term"]
-            if val == "call" and t_["k"] == "call":
-                c_ = f.call_at(b)
-                ret_o = ("call", c_)
-            elif val == "computed":
-                for st in f.blocks[b]["stmts"]:
-                    if "lhs" in st and st["lhs"]["l"] == 0 and not st["lhs"].get("p") and (st.get("rv") or {}).get("k") == "use":
-                        ret_o = f.origin(st["rv"]["op"])
-                    elif "lhs" in st and st["lhs"]["l"] == 0 and not st["lhs"].get("p") and (st.get("rv") or {}).get("k") == "un":
-                        ret_o = ("un", st["rv"]["op"], f.origin(st["rv"]["a"]))
+        def tail_of(ret_o):
+            """atom contributed by a verdict that is itself a test (`a == "X"`, `!args.is_empty()`, `opt.is_some_and(|s| ..)`), or None"""
             neg_ = False
             while ret_o is not None and ret_o[0] == "un" and ret_o[1] == "Not":
                 ret_o = ret_o[2]
                 neg_ = not neg_
-            if ret_o is not None and ret_o[0] == "call" and ret_o[1].name == "is_empty" and ret_o[1].args \
-                    and "PathSegment.arguments" in f.describe_origin(f.origin(ret_o[1].args[0]), deep=3):
-                tail_atom = ("args", ("empty", not neg_))
-            elif ret_o is not None and not neg_ and ret_o[0] == "call" and ret_o[1].name == "is_ident" and len(ret_o[1].args) == 2 and ret_o[1].arg_lit(1, P) is not None:
-                tail_atom = ("is_ident", ret_o[1].arg_lit(1, P))
-            elif ret_o is not None and not neg_ and ret_o[0] == "call" and ret_o[1].name in ("eq", "ne") and len(ret_o[1].args) == 2:
+            if ret_o is None:
+                return None
+            if not neg_ and ret_o[0] == "call" and ret_o[1].name == "unwrap_or" and len(ret_o[1].args) == 2 and _const_false(f, ret_o[1].args[1]):
+                # `.map(|s| ..).unwrap_or(false)`
+                inner = f.origin(ret_o[1].args[0])
+                if inner[0] == "call" and inner[1].name == "map" and len(inner[1].args) == 2:
+                    ret_o = ("call", _Shim("is_some_and", inner[1].args))
+            if not neg_ and ret_o[0] == "call" and ret_o[1].name == "map_or" and len(ret_o[1].args) == 3 and _const_false(f, ret_o[1].args[1]):
+                ret_o = ("call", _Shim("is_some_and", [ret_o[1].args[0], ret_o[1].args[2]]))
+            if not neg_ and ret_o[0] == "call" and ret_o[1].name in ("is_some_and", "is_ok_and", "any") and ret_o[1].args:
+                # `…last().is_some_and(|s| s.ident == "Option")` returned as the verdict: the closure's own accepting path, said of the receiver
+                co = f.origin(ret_o[1].args[-1])
+                cid = co[1].get("closure") if co[0] in ("aggr", "const") and isinstance(co[1], dict) else None
+                sub = accept_paths(P, P.fns[cid], "true") if cid in P.fns else None
+                if sub is not None and len(sub) == 1 and not sub[0]["other"] and not sub[0]["opaque_value"]:
+                    return ("closure", (_seg_key(f, f.origin(ret_o[1].args[0])), sub[0]))
+                return None
+            if ret_o[0] == "call" and ret_o[1].name == "is_empty" and ret_o[1].args and "PathSegment.arguments" in f.describe_origin(f.origin(ret_o[1].args[0]), deep=3):
+                return ("args", ("empty", not neg_))
+            if not neg_ and ret_o[0] == "call" and ret_o[1].name == "is_ident" and len(ret_o[1].args) == 2 and ret_o[1].arg_lit(1, P) is not None:
+                return ("is_ident", ret_o[1].arg_lit(1, P))
+            if not neg_ and ret_o[0] == "call" and ret_o[1].name in ("eq", "ne") and len(ret_o[1].args) == 2:
                 c_ = ret_o[1]
                 for i in (0, 1):
                     l_ = c_.arg_lit(i, P)
                     if l_ is not None and _is_ident_side(f, c_.args[1 - i]) and c_.name == "eq":
-                        tail_atom = (_seg_key(f, f.origin(c_.args[1 - i])), l_)
+                        return (_seg_key(f, f.origin(c_.args[1 - i])), l_)
+            return None
+        # the value returned is itself the last comparison of an `a == "X" || a == "Y"` chain: accepted exactly when it holds
+        tail_atom = None
+        slot = None             # `_0 = move X` with X assigned on several paths (a spliced-in helper's result): decided per path below
+        if acc is None:
+            ret_o = None
+            t_ = f.blocks[b]["term"]
+            if val == "call" and t_["k"] == "call":
+                ret_o = ("call", f.call_at(b))
+            elif val == "computed":
+                for st in f.blocks[b]["stmts"]:
+                    if "lhs" in st and st["lhs"]["l"] == 0 and not st["lhs"].get("p") and (st.get("rv") or {}).get("k") == "use":
+                        pl_ = op_place(st["rv"]["op"])
+                        if pl_ is not None and not pl_.get("p") and len(f.defs.get(pl_["l"], [])) > 1:
+                            slot = pl_["l"]
+                        ret_o = f.origin(st["rv"]["op"])
+                    elif "lhs" in st and st["lhs"]["l"] == 0 and not st["lhs"].get("p") and (st.get("rv") or {}).get("k") == "un":
+                        ret_o = ("un", st["rv"]["op"], f.origin(st["rv"]["a"]))
+            if slot is None:
+                tail_atom = tail_of(ret_o)
         for path in enumerate_paths(f, b, max_paths=MAX_PATHS):
             n_paths += 1
             if n_paths > MAX_PATHS:
                 return None
+            if slot is not None:
+                # which definition of the slot lies on this path?
+                on_path = {blk_: i_ for i_, (blk_, _) in enumerate(path)}
+                best = None
+                for d_ in f.defs.get(slot, []):
+                    if d_[0] in ("stmt", "call") and d_[1] in on_path and (best is None or on_path[d_[1]] > on_path[best[1]]):
+                        best = d_
+                tail_atom = None
+                if best is None:
+                    pass
+                elif best[0] == "stmt" and best[3].get("k") == "use" and "bool" in (best[3]["op"].get("const") or {}):
+                    if not best[3]["op"]["const"]["bool"]:
+                        continue            # this path returns false
+                    tail_atom = ("const-true", None)
+                else:
+                    tail_atom = tail_of(f._origin_def(best, slot, 10, {slot}))
             atoms = {"len": [], "seg": {}, "args": [], "other": [], "kind": [], "opaque_value": acc is None and tail_atom is None}
-            if tail_atom is not None and tail_atom[0] == "args":
+            if tail_atom is not None and tail_atom[0] == "const-true":
+                pass
+            elif tail_atom is not None and tail_atom[0] == "closure":
+                rk, sub0 = tail_atom[1]
+                for k_, v_ in sub0["seg"].items():
+                    atoms["seg"].setdefault(rk if (isinstance(k_, str) and k_.startswith("param:")) else k_, []).extend(v_)
+                atoms["len"].extend(sub0["len"])
+                atoms["args"].extend(sub0["args"])
+            elif tail_atom is not None and tail_atom[0] == "args":
                 atoms["args"].append(tail_atom[1])
             elif tail_atom is not None:
                 atoms["seg"].setdefault(tail_atom[0], []).append((tail_atom[1], True))
@@ -221,22 +269,38 @@ def accept_paths(P, f, accept="true"):
     return out
 
 
-def kind_allowed(k):
-    """variant tests that belong to looking at a type's path: the type is a path type, the generic argument is a type"""
+class _Shim:
+    """`x.map_or(false, p)` and `x.map(p).unwrap_or(false)` read as `x.is_some_and(p)`"""
+    def __init__(self, name, args):
+        self.name = name
+        self.args = args
+
+
+def _const_false(f, op):
+    c_ = op.get("const") if isinstance(op, dict) else None
+    if isinstance(c_, dict) and "bool" in c_:
+        return c_["bool"] is False
+    o = f.origin(op)
+    return o[0] == "const" and isinstance(o[1], dict) and o[1].get("bool") is False
+
+
+def kind_allowed(k, generic_arg_tests=True):
+    """variant tests that belong to looking at a type's path: the type is a path type, the generic argument is a type (the latter only where the
+    predicate is about the argument — a filter on the *name* that also looks at what kind of argument follows is narrower than the name)"""
     vs, outcome = k
     vs = set(vs.split("/"))
     if "Reference" in vs and "Tuple" in vs:        # syn::Type
         return outcome == "Path"
     if "Lifetime" in vs and "Type" in vs:          # syn::GenericArgument
-        return outcome == "Type"
+        return generic_arg_tests and outcome == "Type"
     return False
 
 
-def classify(atoms):
+def classify(atoms, generic_arg_tests=True):
     """spelling class and accepted name of one accepting path: ("tauri::X" | "tauri::ipc::X" | "bare" | "bare+generics" | "other:..", name)"""
     lo, hi = len_range(atoms["len"])
     segs = {k: positive(v) for k, v in atoms["seg"].items()}
-    odd_kinds = [k_ for k_ in atoms.get("kind", []) if not kind_allowed(k_)]
+    odd_kinds = [k_ for k_ in atoms.get("kind", []) if not kind_allowed(k_, generic_arg_tests)]
     if atoms["other"] or atoms.get("opaque_value") or odd_kinds:
         return ("other:" + ";".join(atoms["other"] + ["%s=%s" % (k_[0][:30], k_[1]) for k_ in odd_kinds])[:60] if (atoms["other"] or odd_kinds) else "other:computed-result", None)
     if segs.get(0) == "tauri" and (lo, hi) == (2, 2) and segs.get(1) not in (None, "?"):
